@@ -352,7 +352,7 @@ pub fn run(s: &Session) {
 fn run_inner(s: &Session) {
     s.set_rule("(database, query). Databases: temp directories with every subset (incl. empty) of the three test_data chunk \
         triples; the immutable part is all chunks but the greatest-named one. Queries: read_blocks, get_tip, \
-        read_blocks_from_point at every immutable block as exact point (quick: every 5th + chunk edges), fuzzy (empty hash) at \
+        read_blocks_from_point at every immutable block as exact point, fuzzy (empty hash) at \
         block slots -1/0/+1, chunk-gap and past-tip slots (thorough: every slot inside every chunk's range), absent exact \
         points (flipped hash bit, another block's hash, real hash at a neighbouring/other block's/empty/beyond-tip slot, hash \
         prefix), plus random mixtures. Non-trivial = a query on a database with >= 1 immutable chunk whose outcome the oracle \
@@ -391,13 +391,10 @@ fn run_inner(s: &Session) {
     for db in dbs {
         let n = db.blocks.len();
         for idx in 0..n {
-            let edge = db.chunk_starts.iter().any(|&st| idx + 2 >= st && idx <= st + 1) || idx + 2 >= n;
-            if !quick || idx % 5 == 0 || edge {
-                fam.push(Case { db: db.mask, q: Q::Exact { idx } });
-            }
+            fam.push(Case { db: db.mask, q: Q::Exact { idx } });
         }
     }
-    s.foreach("exact-points", fam, !quick, |c, o| check(dbs, c, o));
+    s.foreach("exact-points", fam, true, |c, o| check(dbs, c, o));
 
     // fuzzy points
     let mut fam = vec![];
